@@ -243,6 +243,47 @@ pub fn run(tier: Tier, seed: u64) -> i32 {
             let s = c.append_witness(BlsScalar::from(5u64));
             c.component_mul_generator(s, ext).map(|_| ())
         });
+        // value fidelity: an accepted representation must enter the circuit as the
+        // affine point it denotes (constants baked, witnesses and public inputs)
+        if z_nonzero {
+            use crate::gen::program::{Inputs as In, Op as O, Program as P};
+            let cases: Vec<(&str, Vec<O>, usize)> = vec![
+                ("append_constant_point", vec![O::ConstantPoint(ext), O::PointCoords(1)], 0),
+                ("append_point", vec![O::Point(0), O::PointCoords(1)], 1),
+                ("append_public_point", vec![O::PublicPoint(0), O::PointCoords(1)], 1),
+            ];
+            for (name, ops, npts) in cases {
+                if name == "append_constant_point" && !want_constant {
+                    continue;
+                }
+                let prog = Arc::new(P { ops, n_scalar_inputs: 0, n_point_inputs: npts, n_digit_inputs: 0 });
+                let inputs = In { scalars: vec![], points: vec![ext; npts], digits: vec![] };
+                match build_forged(&prog, &inputs, None) {
+                    Ok((snap, regs)) => {
+                        ev.bucket("value_fidelity");
+                        let got = (snap.witnesses[regs.s[2].index()], snap.witnesses[regs.s[3].index()]);
+                        if got != (u, v) {
+                            ev.violation(&format!("C13:{name}:enters-the-circuit-as-another-point:{rname}"), json!({"case": desc, "got": [hx(&got.0), hx(&got.1)]}));
+                        }
+                        // the rows it emitted hold for exactly that value
+                        let layout = common::build_instance(&prog, &In { scalars: vec![], points: vec![JubJubExtended::identity(); npts], digits: vec![] }, &[]);
+                        if let (Ok((l, _)), true) = (layout, name == "append_constant_point") {
+                            if !sat::check(&l, &snap).satisfied() {
+                                ev.violation(&format!("C13:{name}:honest-constant-unsatisfied:{rname}"), json!({"case": desc}));
+                            }
+                        }
+                        if name == "append_public_point" {
+                            let pis: Vec<BlsScalar> = snap.public_inputs.iter().map(|(_, x)| *x).collect();
+                            if pis != vec![u, v] {
+                                ev.violation(&format!("C13:{name}:public-inputs-are-not-the-affine-coordinates:{rname}"), json!({"case": desc}));
+                            }
+                        }
+                    }
+                    Err(Fail::Panic(p)) => ev.violation(&format!("C13:{name}:panic:{}:{rname}", panic_site(&p)), json!({"case": desc})),
+                    Err(Fail::Err(_)) => {}
+                }
+            }
+        }
         // these only have to reject Z = 0 (and never panic)
         check("append_point", if z_nonzero { Some(true) } else { Some(false) }, &|c| c.append_point(ext).map(|_| ()));
         check("append_public_point", if z_nonzero { Some(true) } else { Some(false) }, &|c| c.append_public_point(ext).map(|_| ()));
@@ -260,6 +301,7 @@ pub fn run(tier: Tier, seed: u64) -> i32 {
     ev.floor("predicate Ok", ev.bucket_get("predicate.ok"), 300);
     ev.floor("predicate Err", ev.bucket_get("predicate.err"), 300);
     ev.floor("representations", ev.set_len("representations") as u64, 5);
+    ev.floor("value fidelity checks", ev.bucket_get("value_fidelity"), 1000);
     ev.floor("end to end", ev.bucket_get("end_to_end"), 10);
     ev.finish()
 }
